@@ -163,7 +163,8 @@ func jsonAddKeyElements(s Entry, dict map[string]any) {
 		if _, exists := dict[schemaKeys[i]]; !exists {
 			// and finally we create the patheleme key attributes
 			dict[schemaKeys[i]] = treeElem.PathName()
-			treeElem = treeElem.GetParent()
 		}
+		// one level up per key, whether or not the key was already present
+		treeElem = treeElem.GetParent()
 	}
 }
